@@ -11,6 +11,11 @@
                     TxtAttrs::to_txt_strings (BTreeMap order relay < addr < user-data);
                     SignedPacket::from_txt_strings (one TXT record per string; each string
                     <= 255 bytes, compressed DNS packet <= 1000 bytes, else error)
+     PublishDns     the same packet, but resolved through DNS: iroh-dns-server serves the TXT
+                    records of the packet's DNS message unchanged, the resolver wraps every TXT
+                    answer in dns::TxtRecordData and EndpointInfo::from_txt_lookup renders it
+                    character-string by character-string (String::from_utf8_lossy on each,
+                    then concatenated)
      PublishTxt     EndpointInfo::to_txt_strings (same strings, no size rule) — what a DNS
                     server hands out as TXT answers
      Resolve        EndpointInfo::from_pkarr_signed_packet / from_txt_lookup
@@ -29,6 +34,15 @@
    string.  Concretisation (checks/c31.py) is a homomorphism on runs, so the value the spec
    expects back maps to exactly one concrete string.
 
+   On the wire a TXT record is a sequence of *character-strings* of at most 255 bytes each
+   (`wire`).  The required design writes every attribute string as ONE character-string
+   (`ChunkAt = 0`: TXT::new + add_string; a string over 255 bytes does not encode).  A
+   publisher that cuts the bytes every `ChunkAt` bytes into several character-strings
+   (`ChunkAt = 254`: simple_dns `TXT::try_from(&str)`) still round-trips for readers that
+   concatenate the bytes first (Resolve of a packet), but not through DNS: a 2-byte character
+   cut in the middle (runs "uh1" | "uh2") is decoded per character-string into two U+FFFD
+   (run "fffd", 3 bytes each) — that variant is refuted on RoundTrip.
+
    The one place where the design the property needs and the pinned code differ is the
    key/value split: `SplitOnce = TRUE` splits at the FIRST "=" (str::split_once — required:
    then Parse(Format(k, v)) = <<k, v>> for every v); `SplitOnce = FALSE` is the code as
@@ -45,15 +59,17 @@ CONSTANTS Classes,      \* character classes other than "=" used in user data
           Foreign,      \* TXT string lists not produced by Format (ResolveForeign)
           Filters,      \* address filters applied before publishing: subset of {"none", "relay_only", "ip_only"}
           MaxUserData, MaxTxt, MaxPacket, NameLen,
+          ChunkAt,      \* 0: one character-string per attribute string (required); k > 0: cut every k bytes
           SplitOnce
 
 VARIABLES pc,        \* "new" -> "start" -> "wire" -> "done"
           input,     \* [addrs: Seq(Address), ud: [some, s], filter] as handed to the constructors
           info,      \* the EndpointInfo built from it: [addrs, ud]
-          via,       \* "none" | "packet" | "txt" | "foreign"
-          txt,       \* the TXT strings on the wire
+          via,       \* "none" | "packet" | "dns" | "txt" | "foreign"
+          txt,       \* the attribute strings published
+          wire,      \* packet paths: per TXT record its character-strings (Seq of Seq of strings)
           out        \* [st: "none"|"ok"|"err"|"unencodable"|"invalid", why, addrs, ud]
-vars == <<pc, input, info, via, txt, out>>
+vars == <<pc, input, info, via, txt, wire, out>>
 
 Keys == {"relay", "addr", "user-data"}            \* IrohAttr, kebab-case
 KeyLen(k) == CASE k = "relay" -> 5 [] k = "addr" -> 4 [] k = "user-data" -> 9 [] OTHER -> 3
@@ -115,12 +131,42 @@ ToTxt(i) == LET rel == SelectSeq(i.addrs, IsRelay)
             IN [j \in 1..Len(rel) |-> AddrTxt(rel[j])] \o [j \in 1..Len(oth) |-> AddrTxt(oth[j])]
                \o (IF i.ud.some THEN <<Format("user-data", i.ud.s)>> ELSE <<>>)
 
-\* SignedPacket::from_txt_strings: one TXT RR per string; first owner name in full, later
-\* ones as 2-byte compression pointers; RR = name + 10 + (1 + string); header 12
-RECURSIVE SumRR(_)
-SumRR(ts) == IF ts = <<>> THEN 0 ELSE 11 + Bytes(Head(ts)) + SumRR(Tail(ts))
-PacketLen(ts) == IF ts = <<>> THEN 12 ELSE 12 + NameLen + 2 * (Len(ts) - 1) + SumRR(ts)
-Fits(ts) == (\A j \in 1..Len(ts) : Bytes(ts[j]) <= MaxTxt) /\ PacketLen(ts) <= MaxPacket
+RECURSIVE Flat(_)
+Flat(ss) == IF ss = <<>> THEN <<>> ELSE Head(ss) \o Flat(Tail(ss))
+\* ---- character-strings
+\* the first k bytes of a string / the rest; a 2-byte character cut in the middle leaves two halves
+SplitRun(r, k) == IF r.c = "u" THEN << [c |-> "uh1", n |-> 1], [c |-> "uh2", n |-> 1] >>
+                  ELSE << [c |-> r.c, n |-> k], [c |-> r.c, n |-> r.n - k] >>
+RECURSIVE TakeBytes(_, _), DropBytes(_, _), Chunks(_, _), Merge(_)
+TakeBytes(s, k) == IF s = <<>> \/ k = 0 THEN <<>>
+                   ELSE IF Head(s).n <= k THEN <<Head(s)>> \o TakeBytes(Tail(s), k - Head(s).n)
+                   ELSE <<SplitRun(Head(s), k)[1]>>
+DropBytes(s, k) == IF s = <<>> \/ k = 0 THEN s
+                   ELSE IF Head(s).n <= k THEN DropBytes(Tail(s), k - Head(s).n)
+                   ELSE <<SplitRun(Head(s), k)[2]>> \o Tail(s)
+Chunks(s, k) == IF Bytes(s) <= k THEN <<s>> ELSE <<TakeBytes(s, k)>> \o Chunks(DropBytes(s, k), k)
+\* SignedPacket::from_txt_strings: the character-strings of the TXT record written for one attribute string
+CharStrings(s) == IF ChunkAt = 0 THEN <<s>> ELSE Chunks(s, ChunkAt)
+\* bytes put together again: adjacent plain runs are one run, the two halves of a character are the character
+Merge(s) == IF Len(s) < 2 THEN s
+            ELSE IF s[1].c = "a" /\ s[2].c = "a" THEN Merge(<<[c |-> "a", n |-> s[1].n + s[2].n]>> \o SubSeq(s, 3, Len(s)))
+            ELSE IF s[1].c = "uh1" /\ s[2].c = "uh2" THEN <<[c |-> "u", n |-> 2]>> \o Merge(SubSeq(s, 3, Len(s)))
+            ELSE <<s[1]>> \o Merge(Tail(s))
+\* SignedPacket::txt_records: all bytes of the record, then UTF-8
+Joined(rec) == Merge(Flat(rec))
+\* TxtRecordData's Display: String::from_utf8_lossy on every character-string, then concatenated
+Lossy(cs) == [j \in 1..Len(cs) |-> IF cs[j].c \in {"uh1", "uh2"} THEN [c |-> "fffd", n |-> 3] ELSE cs[j]]
+DnsText(rec) == Merge(Flat([j \in 1..Len(rec) |-> Lossy(rec[j])]))
+
+\* SignedPacket::from_txt_strings: one TXT RR per attribute string; first owner name in full, later
+\* ones as 2-byte compression pointers; RR = name + 10 + (1 + bytes) per character-string; header 12
+RECURSIVE SumCs(_), SumRR(_)
+SumCs(rec) == IF rec = <<>> THEN 0 ELSE 1 + Bytes(Head(rec)) + SumCs(Tail(rec))
+SumRR(w) == IF w = <<>> THEN 0 ELSE 10 + SumCs(Head(w)) + SumRR(Tail(w))
+PacketLen(w) == IF w = <<>> THEN 12 ELSE 12 + NameLen + 2 * (Len(w) - 1) + SumRR(w)
+CsTooLong(w) == \E j \in 1..Len(w) : \E i \in 1..Len(w[j]) : Bytes(w[j][i]) > MaxTxt
+Fits(w) == ~CsTooLong(w) /\ PacketLen(w) <= MaxPacket
+WireOf(ts) == [j \in 1..Len(ts) |-> CharStrings(ts[j])]
 
 \* value -> address (Url::parse / SocketAddr::from_str / CustomAddr::from_str): the pool
 \* address with this text; a text that is no pool address but starts like one is some
@@ -131,9 +177,6 @@ ParseAddr(kinds, v) ==
   IF Known(kinds, v) # {} THEN <<CHOOSE a \in Known(kinds, v) : TRUE>>
   ELSE IF LooksValid(v) /\ "relay" \in kinds THEN <<[kind |-> "relay", tag |-> "other", form |-> v]>>
   ELSE <<>>
-RECURSIVE Flat(_)
-Flat(ss) == IF ss = <<>> THEN <<>> ELSE Head(ss) \o Flat(Tail(ss))
-
 \* TxtAttrs::from_strings + endpoint_info_from_attrs
 FromTxt(ts) ==
   LET p == [j \in 1..Len(ts) |-> Parse(ts[j])]
@@ -156,7 +199,7 @@ Cases == (AddrLists \X ({NoUd} \cup { [some |-> TRUE, s |-> s] : s \in UdSample 
 
 \* a filter other than "none" is combined with every address list, but only with the sampled user data
 FilterCases == AddrLists \X ({NoUd} \cup { [some |-> TRUE, s |-> s] : s \in UdSample })
-Init == /\ pc = "new" /\ via = "none" /\ txt = <<>> /\ out = NoOut
+Init == /\ pc = "new" /\ via = "none" /\ txt = <<>> /\ wire = <<>> /\ out = NoOut
         /\ info = [addrs |-> <<>>, ud |-> NoUd]
         /\ \/ \E c \in Cases : input = [addrs |-> c[1], ud |-> c[2], filter |-> "none"]
            \/ \E c \in FilterCases : \E f \in Filters \ {"none"} : input = [addrs |-> c[1], ud |-> c[2], filter |-> f]
@@ -169,32 +212,39 @@ New == /\ pc = "new"
                  /\ UNCHANGED info
             ELSE /\ pc' = "start" /\ info' = [addrs |-> ApplyFilter(input.filter, Dedup(input.addrs, {})), ud |-> input.ud]
                  /\ UNCHANGED out
-       /\ UNCHANGED <<input, via, txt>>
+       /\ UNCHANGED <<input, via, txt, wire>>
 
-PublishPacket == /\ pc = "start" /\ via' = "packet" /\ txt' = ToTxt(info)
-                 /\ IF Fits(ToTxt(info))
-                      THEN pc' = "wire" /\ UNCHANGED out
-                      ELSE pc' = "done" /\ out' = [NoOut EXCEPT !.st = "unencodable",
-                              !.why = IF \E j \in 1..Len(ToTxt(info)) : Bytes(ToTxt(info)[j]) > MaxTxt THEN "DnsError" ELSE "PacketTooLarge"]
-                 /\ UNCHANGED <<input, info>>
+Encode(v) == /\ pc = "start" /\ via' = v /\ txt' = ToTxt(info) /\ wire' = WireOf(ToTxt(info))
+             /\ IF Fits(WireOf(ToTxt(info)))
+                  THEN pc' = "wire" /\ UNCHANGED out
+                  ELSE pc' = "done" /\ out' = [NoOut EXCEPT !.st = "unencodable",
+                          !.why = IF CsTooLong(WireOf(ToTxt(info))) THEN "DnsError" ELSE "PacketTooLarge"]
+             /\ UNCHANGED <<input, info>>
+PublishPacket == Encode("packet")
+PublishDns == Encode("dns")
 
 PublishTxt == /\ pc = "start" /\ via' = "txt" /\ txt' = ToTxt(info) /\ pc' = "wire"
-              /\ UNCHANGED <<input, info, out>>
+              /\ UNCHANGED <<input, info, out, wire>>
 
-Resolve == /\ pc = "wire" /\ out' = FromTxt(txt) /\ pc' = "done"
-           /\ UNCHANGED <<input, info, via, txt>>
+\* what the resolver parses: the joined bytes of every record (packet), every record rendered
+\* character-string by character-string (dns), or the strings themselves
+Received == CASE via = "packet" -> [j \in 1..Len(wire) |-> Joined(wire[j])]
+              [] via = "dns" -> [j \in 1..Len(wire) |-> DnsText(wire[j])]
+              [] OTHER -> txt
+Resolve == /\ pc = "wire" /\ out' = FromTxt(Received) /\ pc' = "done"
+           /\ UNCHANGED <<input, info, via, txt, wire>>
 
 \* a resolver is handed TXT strings that no publisher of this code produced
 ResolveForeign == /\ pc = "new" /\ input.addrs = <<>> /\ ~input.ud.some /\ input.filter = "none"
                   /\ \E f \in Foreign : txt' = f
-                  /\ via' = "foreign" /\ pc' = "wire" /\ UNCHANGED <<input, info, out>>
+                  /\ via' = "foreign" /\ pc' = "wire" /\ UNCHANGED <<input, info, out, wire>>
 
-Next == New \/ PublishPacket \/ PublishTxt \/ Resolve \/ ResolveForeign
+Next == New \/ PublishPacket \/ PublishDns \/ PublishTxt \/ Resolve \/ ResolveForeign
 Spec == Init /\ [][Next]_vars
 
 ---------------------------------------------------------------------------
 (* C31 *)
-Published == pc = "done" /\ via \in {"packet", "txt"} /\ out.st # "unencodable"
+Published == pc = "done" /\ via \in {"packet", "dns", "txt"} /\ out.st # "unencodable"
 \* the same set of addresses and the same user data come back, and resolving never fails
 RoundTrip == Published => /\ out.st = "ok"
                           /\ Range(out.addrs) = Range(info.addrs)
@@ -209,13 +259,16 @@ ParseInvertsFormat == (pc = "new" /\ input.addrs = <<>> /\ ~input.ud.some /\ inp
                            LET r == Parse(Format(k, v)) IN r.ok /\ KeyOf(r.key) = k /\ r.val = v
 \* every valid user data fits one TXT string; the publisher never emits an unparsable string
 UserDataFits == pc = "wire" /\ via # "foreign" => \A j \in 1..Len(txt) : EqAt(txt[j]) # {} /\ KeyOf(<<txt[j][1]>>) # "?"
-TxtLimit == pc = "wire" /\ via = "packet" => \A j \in 1..Len(txt) : Bytes(txt[j]) <= MaxTxt
+TxtLimit == pc = "wire" /\ via \in {"packet", "dns"} => ~CsTooLong(wire)
+\* required design: one character-string per attribute string, carrying exactly its bytes
+OneCharString == ChunkAt = 0 /\ pc = "wire" /\ via \in {"packet", "dns"} =>
+                   /\ Len(wire) = Len(txt) /\ \A j \in 1..Len(wire) : wire[j] = <<txt[j]>>
 \* the parser is total: every TXT list gets a verdict
 Total == pc = "done" => out.st \in {"ok", "err", "unencodable", "invalid"}
 
 \* one REPLAY line per finished case with everything the harness must observe
 \* filtering: nothing the filter removes is ever published, and everything it keeps comes back
-FilterRespected == pc \in {"wire", "done"} /\ via \in {"packet", "txt"} =>
+FilterRespected == pc \in {"wire", "done"} /\ via \in {"packet", "dns", "txt"} =>
                      /\ input.filter = "relay_only" => \A j \in 1..Len(txt) : txt[j][1].c # "addr"
                      /\ input.filter = "ip_only" => \A j \in 1..Len(txt) : txt[j][1].c # "relay"
                      /\ Range(info.addrs) = { a \in Range(input.addrs) : \/ input.filter = "none"
@@ -224,5 +277,7 @@ FilterRespected == pc \in {"wire", "done"} /\ via \in {"packet", "txt"} =>
 
 Emit == pc = "done" =>
   PrintT(<<"REPLAY", ToJson([via |-> via, addrs |-> input.addrs, filter |-> input.filter, ud |-> input.ud, txt |-> txt,
-                             pktlen |-> IF via = "packet" THEN PacketLen(txt) ELSE 0, out |-> out])>>)
+                             info |-> info,
+                             cs |-> [j \in 1..Len(wire) |-> [i \in 1..Len(wire[j]) |-> Bytes(wire[j][i])]],
+                             pktlen |-> IF via \in {"packet", "dns"} THEN PacketLen(wire) ELSE 0, out |-> out])>>)
 =============================================================================
